@@ -22,6 +22,7 @@ type val struct {
 	T string `json:"t"`
 	I int    `json:"i"`
 	S string `json:"s"`
+	L []val  `json:"l"` // items of a tuple / list
 }
 type outcome struct {
 	K string `json:"k"`
@@ -49,6 +50,8 @@ type stmt struct {
 	N    int    `json:"n"`
 	V    int    `json:"v"`
 	B    int    `json:"b"`
+	Val  val    `json:"val"`  // retv: the returned value
+	Then string `json:"then"` // yf: "", "ret", "unpack"
 	Body []stmt `json:"body"`
 	Fin  []stmt `json:"fin"`
 }
@@ -61,12 +64,46 @@ type bodiesRec struct {
 
 // ---- rendering (dumb templates: one Python line per statement kind) ----
 
+// pyVal is the text the driver prints for a value: tuples and lists are shown by the scaffolding function show()
+// as ['T', items...] resp. ['L', items...] (type by isinstance, then the items; a tuple is never printed as such)
 func pyVal(v val) string {
 	switch v.T {
 	case "int":
 		return strconv.Itoa(v.I)
 	case "str":
 		return "'" + v.S + "'"
+	case "tuple", "list":
+		parts := []string{"'T'"}
+		if v.T == "list" {
+			parts[0] = "'L'"
+		}
+		for _, x := range v.L {
+			parts = append(parts, pyVal(x))
+		}
+		return "[" + strings.Join(parts, ", ") + "]"
+	}
+	return "None"
+}
+
+// pyLiteral is the Python source text of a value (used in `return <value>`)
+func pyLiteral(v val) string {
+	switch v.T {
+	case "int":
+		return strconv.Itoa(v.I)
+	case "str":
+		return "'" + v.S + "'"
+	case "tuple", "list":
+		parts := make([]string, len(v.L))
+		for i, x := range v.L {
+			parts[i] = pyLiteral(x)
+		}
+		if v.T == "list" {
+			return "[" + strings.Join(parts, ", ") + "]"
+		}
+		if len(parts) == 1 {
+			return "(" + parts[0] + ",)"
+		}
+		return "(" + strings.Join(parts, ", ") + ")"
 	}
 	return "None"
 }
@@ -123,8 +160,17 @@ func renderStmts(ss []stmt, ind string, depth int, out *[]string) {
 			*out = append(*out, fmt.Sprintf("%sreturn %d", ind, s.V))
 		case "raise":
 			*out = append(*out, ind+"raise KeyError('boom')")
+		case "retv":
+			*out = append(*out, ind+"return "+pyLiteral(s.Val))
 		case "yf":
-			*out = append(*out, fmt.Sprintf("%sr = yield from g%d()", ind, s.B), ind+"LOG.append(['yf', r])")
+			switch s.Then {
+			case "unpack":
+				*out = append(*out, fmt.Sprintf("%sq, r = yield from g%d()", ind, s.B), ind+"LOG.append(['un', show([q, r])])")
+			case "ret":
+				*out = append(*out, fmt.Sprintf("%sr = yield from g%d()", ind, s.B), ind+"LOG.append(['yf', show(r)])", ind+"return r")
+			default:
+				*out = append(*out, fmt.Sprintf("%sr = yield from g%d()", ind, s.B), ind+"LOG.append(['yf', show(r)])")
+			}
 		default:
 			common.Inconclusive("property=C05 statement kind %q of the specification has no rendering", s.K)
 		}
@@ -132,6 +178,12 @@ func renderStmts(ss []stmt, ind string, depth int, out *[]string) {
 }
 
 const genDriver = `
+def show(v):
+    if isinstance(v, tuple):
+        return ['T'] + [show(x) for x in v]
+    if isinstance(v, list):
+        return ['L'] + [show(x) for x in v]
+    return v
 def call(g, v):
     del LOG[:]
     try:
@@ -141,9 +193,11 @@ def call(g, v):
             y = g.send(v)
         o = ['yield', y]
     except StopIteration as e:
-        o = ['stop', e.value]
+        o = ['stop', show(e.value)]
     except TypeError:
         o = ['exc', 'TypeError']
+    except ValueError:
+        o = ['exc', 'ValueError']
     except KeyError:
         o = ['exc', 'KeyError']
     print(o)
